@@ -251,6 +251,11 @@ def run(ctx: Ctx) -> None:
         jwk = K.get("oct128")
         tok = jwe.encrypt_compact({"alg": "A128KW", "enc": "A128GCM", "zip": "DEF"}, data, J.jkey(jwk))
         try:
+            if jwe.decrypt_compact(tok, J.jkey(jwk)).plaintext != data:
+                ctx.violation("deflate:own token of a small plaintext does not round-trip", {"length": n})
+        except Exception as e:  # noqa
+            ctx.violation(f"deflate:own token of a small plaintext is refused ({type(e).__name__})", {"length": n})
+        try:
             _, back = R.jwe_decrypt(tok, jwk)
             if back != data:
                 ctx.violation("deflate:compress-not-raw content differs", {"length": n})
